@@ -516,8 +516,10 @@ impl Xot {
 
         for ancestor in self.ancestors(node) {
             for (key, value) in self.namespaces(ancestor).iter() {
+                // a prefix that was redeclared closer to the node shadows
+                // this declaration; other prefixes may still be bound
                 if seen.contains(&key) {
-                    return None;
+                    continue;
                 }
                 seen.insert(key);
                 if *value == namespace {
@@ -527,7 +529,7 @@ impl Xot {
         }
         for (key, value) in self.base_prefixes() {
             if seen.contains(&key) {
-                return None;
+                continue;
             }
             seen.insert(key);
             if value == namespace {
